@@ -532,7 +532,7 @@ def build_cases(tier, seed):
     rng = random.Random(seed + 17)
     chains = [(a, b) for a in names for b in names]
     triples = [(a, b, c) for a in names for b in names for c in names]
-    triples = triples if thorough else rng.sample(triples, 60)
+    triples = rng.sample(triples, 1000 if thorough else 60)
     for chain in chains + triples:
         btoks, bterm = bases[1]         # unit clauses: chains of threshold substitutions stay small
         toks, term = list(btoks), bterm
@@ -683,7 +683,7 @@ def bounded_cases(ctx):
              'numbers and on the graphs read back from the files written by `save`; non-trivial iff a formula is built on both sides; distinct by the argument vector')
     subs = collections.Counter((c['tool'], c['sub']) for c in C)
     ctx.bounds['cases'] = '{} command lines over {} (tool, sub-command) pairs; option subsets exhaustive per sub-command; chains: all pairs of 15 transformations, {} triples'.format(
-        len(C), len(subs), 'all' if thorough else '60 sampled')
+        len(C), len(subs), '1000 sampled' if thorough else '60 sampled')
     with tempfile.TemporaryDirectory(prefix='c17_') as fix:
         x_cli.make_fixtures(fix)
         with mp.Pool(x_cli.NPROC, initializer=_winit, initargs=(fix,), maxtasksperchild=500) as pool:
